@@ -335,7 +335,26 @@ def whitespace_placement(chk, prog):
             continue
         fl = [blk for blk, t in b.calls_to(FLUSH)]
         ends, looks = [], []
+        # helpers that were inlined: one that walks the structure (calls parse_value & co.) is part of the walker; one that reads a token's own
+        # characters (the contents of a string, the digits of an escape) is a token — its reads are not structural, its return is a token end
+        def walks(name, seen=()):
+            hb = prog.bodies.get(name)
+            if hb is None or name in seen:
+                return False
+            for _, t_ in hb.calls():
+                r_ = t_.get("resolved") or t_.get("callee") or ""
+                if core.re.search(r"Parser(::<'a>)?::(parse_value|parse_array|parse_object)$", r_):
+                    return True
+                if r_ in (getattr(prog, "new_functions", []) or []) and walks(r_, seen + (name,)):
+                    return True
+            return False
+        token_fns = {nm for nm in {blk_.get("from_fn") for blk_ in b.blocks if blk_.get("from_fn")} if not walks(nm)}
+        for bi_, blk_ in enumerate(b.blocks):
+            if blk_.get("inlined_ret") in token_fns and blk_.get("from_fn") not in token_fns:
+                ends.append(bi_)
         for blk, t in b.calls():
+            if b.blocks[blk].get("from_fn") in token_fns:
+                continue
             r = t.get("resolved") or t.get("callee") or ""
             if core.re.search(r"Parser(::<'a>)?::(parse_string|parse_value|parse_literal|parse_array|parse_object)$", r):
                 ends.append(blk)
@@ -352,7 +371,7 @@ def whitespace_placement(chk, prog):
             n += 1
             tgt = [x for x in looks if x != e] + ([e] if e in b.reachable(b.succs(e)) and e in looks else [])
             w = core.must_pass(b, [e], tgt, through_nodes=fl)
-            what = core.short(b.term(e).get("resolved") or b.term(e).get("callee") or "").split("::")[-1]
+            what = core.short(b.term(e).get("resolved") or b.term(e).get("callee") or b.blocks[e].get("inlined_ret") or "").split("::")[-1]
             chk.ob("R2.whitespace", fn, f"after {what}: whitespace is skipped before the input is looked at again", w is None,
                    "insignificant whitespace at this position (e.g. between a member name and its `:`) makes a valid document invalid", path=w, where=b.where(e))
     chk.floor("token ends in the structure walkers", n, 6)
